@@ -191,7 +191,11 @@ Fixpoint fork_go (legacy i0 bufne : bool) (idx dim : N) (ps : list part)
           match range_len p with
           | None => None
           | Some alen =>
-              if alen =? 0 then Some (idx =? 0, [])
+              if alen =? 0 then
+                (* an empty inner collection: identified by the enclosing
+                   indices (before the repair: an empty id whenever idx <> 0,
+                   i.e. the stage directory itself, shared by all such forks) *)
+                if idx =? 0 then Some (true, []) else Some (false, write_fork_index dim idx)
               else if negb (allow p) then None
               else
                 match p_id p with
